@@ -19,6 +19,7 @@ func init() {
 			"X2 the disabled test precedes every submission / completion write in doSplit and stepPipeline and a disabled fork writes the disabled marker, " +
 			"X3 an empty or null mapped collection reaches writeDisable in the fork-expansion functions and Fork.disabled reports a zero-length range, " +
 			"X4 skipping preflights is guarded by Preflight && SkipPreflight and skip() has no other callers; X5 a node's list of disabling conditions, which children and siblings share, is never extended in place (may-alias analysis: no append whose first operand can share the backing array of a CallGraphStage.Disable); O1 (shared with C02) bounds where jobs can be submitted. " +
+			"X6 a fork-id part shared with sibling forks of an outer run-time dimension is resolved only through the join of the caller's part and a private copy taken on an edge that compares len(node.forks) with this fork's index (one known finding: the single-key map branch). " +
 			"NOT decided: one fork per element/key (run-time counts), liveness (no job skipped).",
 		Assumptions: commonAssumptions,
 	}
@@ -339,7 +340,7 @@ func ruleX3(c *an.Ctx) {
 				r := an.Normalize(cnd, t)
 				// n == 0 with n from getUnknownLength
 				isLenRes := func(v ssa.Value) bool {
-					ex, ok := v.(*ssa.Extract)
+					ex, ok := throughCell(v).(*ssa.Extract)
 					if !ok || ex.Index != 0 {
 						return false
 					}
@@ -351,7 +352,7 @@ func ruleX3(c *an.Ctx) {
 					if !ok {
 						return false
 					}
-					ex, ok := an.Strip(args[0]).(*ssa.Extract)
+					ex, ok := throughCell(an.Strip(args[0])).(*ssa.Extract)
 					if !ok || ex.Index != 0 {
 						return false
 					}
@@ -481,4 +482,29 @@ func ruleX4(c *an.Ctx) {
 		c.Check("X4", "skip-guard(Preflight && SkipPreflight)@(*Node).step", in.Pos(), g1 && g2,
 			"only preflight stages may be skipped, and only when SkipPreflight is configured")
 	}
+}
+
+// throughCell: a load of a local variable cell that is stored to exactly once (a local captured by a
+// closure lives in such a cell) stands for the stored value.
+func throughCell(v ssa.Value) ssa.Value {
+	u, ok := v.(*ssa.UnOp)
+	if !ok || u.Op != token.MUL {
+		return v
+	}
+	a, ok := u.X.(*ssa.Alloc)
+	if !ok {
+		return v
+	}
+	var val ssa.Value
+	n := 0
+	for _, r := range an.Referrers(a) {
+		if st, ok := r.(*ssa.Store); ok && st.Addr == ssa.Value(a) {
+			val = st.Val
+			n++
+		}
+	}
+	if n == 1 {
+		return val
+	}
+	return v
 }
